@@ -63,11 +63,19 @@ func (r *checkRun) runBounded() int {
 			}
 		}
 		if !found {
-			tail := string(out)
-			if len(tail) > 1500 {
-				tail = tail[len(tail)-1500:]
+			if why, isBuild := buildFailure(string(out)); isBuild {
+				// the stand-in is Go code written against the package's current API: when it no longer compiles (or the
+				// package itself does not), nothing was explored. That is not a verdict on the property.
+				fmt.Printf("UNDECIDED %s [bounded] the stand-in does not build against this tree, nothing was explored: %s\n", name0, why)
+				rec["failures"] = 0
+				rec["undecided"] = "does not build: " + why
+				r.bounded = append(r.bounded, rec)
+				if exit == 0 {
+					exit = 3
+				}
+				continue
 			}
-			failures = append(failures, "harness produced no result: "+tail)
+			failures = append(failures, crashSummary(string(out)))
 		} else if err != nil && len(failures) == 0 {
 			failures = append(failures, "harness failed: "+err.Error())
 		}
@@ -117,4 +125,51 @@ func (r *checkRun) runBounded() int {
 		exit = 1
 	}
 	return exit
+}
+
+// buildFailure recognises a go test run that ended before any test ran because something did not compile.
+func buildFailure(out string) (string, bool) {
+	if !strings.Contains(out, "[build failed]") && !strings.Contains(out, "[setup failed]") {
+		return "", false
+	}
+	var first []string
+	for _, line := range strings.Split(out, "\n") {
+		if strings.Contains(line, ".go:") && len(first) < 3 {
+			first = append(first, strings.TrimSpace(line))
+		}
+	}
+	return strings.Join(first, "; "), true
+}
+
+// crashSummary describes a harness process that ended without a result line: the code under test brought the
+// process down (panic outside the harness's recover, fatal error, timeout). The panic line and the first frames
+// inside the repository are kept, then the tail of the output.
+func crashSummary(out string) string {
+	lines := strings.Split(out, "\n")
+	var what string
+	var frames []string
+	for _, line := range lines {
+		t := strings.TrimSpace(line)
+		if what == "" && (strings.HasPrefix(t, "panic: ") || strings.HasPrefix(t, "fatal error: ")) {
+			what = t
+		}
+		if what != "" && strings.HasPrefix(t, "github.com/specterops/dawgs/") && len(frames) < 4 {
+			if i := strings.LastIndex(t, "("); i > 0 {
+				t = t[:i]
+			}
+			frames = append(frames, t)
+		}
+	}
+	tail := out
+	if len(tail) > 1200 {
+		tail = tail[len(tail)-1200:]
+	}
+	if what == "" {
+		return "harness produced no result: " + tail
+	}
+	kind := "the code under test crashed the harness process"
+	if strings.Contains(what, "test timed out") {
+		kind = "the harness did not finish within its time limit (hang)"
+	}
+	return kind + ": " + what + " in " + strings.Join(frames, " <- ") + " | output tail: " + tail
 }
